@@ -13,7 +13,7 @@ def base (entry : Nat → Bytes) (box : Bytes) (y : Sys) : Bytes := box ++ (y.or
 
 /-- control points inside the critical section (lock held, descriptor open) -/
 def InCrit : PC → Bool
-  | .alarmOff | .copy | .closeOk | .rollback | .closeErr => true
+  | .alarmOff | .seekE | .seekC | .copy | .closeOk | .rollback | .closeErr => true
   | _ => false
 
 /-- control points of a delivery whose entry is completely in the file -/
@@ -22,13 +22,15 @@ def Committed : PC → Bool
   | _ => false
 
 def PreLock : PC → Bool
-  | .start | .alarmOn | .lock | .alarmOff => true
+  | .start | .alarmOn | .lock | .alarmOff | .seekE | .seekC => true
   | _ => false
 
 /-- what the lock holder's control point says about the file -/
 def HolderInv (s : St) (file b : Bytes) : Prop :=
   match s.pc with
-  | .alarmOff => file = b ++ s.written ∧ s.pos = b.length ∧ s.locked = true
+  | .alarmOff => file = b ++ s.written ∧ s.locked = true
+  | .seekE => file = b ++ s.written ∧ s.locked = true
+  | .seekC => file = b ++ s.written ∧ s.off = b.length ∧ s.locked = true
   | .copy => file = b ++ s.written ∧ s.pos = b.length ∧ s.locked = true
   | .rollback => file = b ++ s.written ∧ s.pos = b.length ∧ s.locked = true
   | _ => file = b
@@ -235,10 +237,10 @@ theorem step_inv (entry : Nat → Bytes) (box : Bytes) (y y' : Sys) (i : Nat) (e
           · intro _; exact hh
           · intro hh; have := hinv.held i hh; simpa [HolderInv, h.1] using this
           · simp [Committed, h.1]
-          · simp [PreLock]
+          · intro _; exact hinv.pre i (by simp [h.1, PreLock])
           · intro c hc; simp at hc
         · cases hacc
-    | flock ok len =>
+    | flock ok =>
       cases ok with
       | false => simp [benign] at hb
       | true =>
@@ -246,7 +248,7 @@ theorem step_inv (entry : Nat → Bytes) (box : Bytes) (y y' : Sys) (i : Nat) (e
         split at hacc
         · rename_i h; cases hacc
           simp at hstep
-          obtain ⟨⟨hn, hl⟩, hy⟩ := hstep
+          obtain ⟨hn, hy⟩ := hstep
           subst hy
           have hw := hinv.pre i (by simp [h, PreLock])
           have hf := hinv.free hn
@@ -261,7 +263,7 @@ theorem step_inv (entry : Nat → Bytes) (box : Bytes) (y y' : Sys) (i : Nat) (e
             simp at hk; subst hk
             show HolderInv _ y.file (base entry box y)
             simp only [upd_same, HolderInv]
-            exact ⟨by rw [hw, List.append_nil]; exact hf, by rw [hl, hf], trivial⟩
+            exact ⟨by rw [hw, List.append_nil]; exact hf, trivial⟩
           · intro j
             by_cases hji : j = i
             · subst hji; simp [Committed]; have := (hinv.ord j); simpa [h, Committed] using this
@@ -275,6 +277,39 @@ theorem step_inv (entry : Nat → Bytes) (box : Bytes) (y y' : Sys) (i : Nat) (e
             · subst hji; simp at hj
             · simp [upd_other _ _ _ _ hji] at hj; exact hinv.dy j c hj
         · cases hacc
+    | seekEnd len =>
+      simp only [accept] at hacc
+      split at hacc
+      · rename_i h; cases hacc
+        simp at hstep
+        obtain ⟨hl, hy⟩ := hstep
+        subst hy
+        have hh : y.holder = some i := hinv.excl i (by simp [h, InCrit])
+        have hw := hinv.pre i (by simp [h, PreLock])
+        have hH := hinv.held i hh
+        simp [HolderInv, h, hw] at hH
+        apply step_local entry box y i _ hinv
+        · intro _; exact hh
+        · intro _; simp [HolderInv, hw, hH.1, hH.2, hl]
+        · simp [Committed, h]
+        · intro _; exact hw
+        · intro c hc; simp at hc
+      · cases hacc
+    | seekCur len =>
+      simp at hstep; subst hstep
+      simp only [accept] at hacc
+      split at hacc
+      · rename_i h; cases hacc
+        have hh : y.holder = some i := hinv.excl i (by simp [h.1, InCrit])
+        have hH := hinv.held i hh
+        simp [HolderInv, h.1] at hH
+        apply step_local entry box y i _ hinv
+        · intro _; exact hh
+        · intro _; simp [HolderInv, hH.1, hH.2.2, h.2, hH.2.1]
+        · simp [Committed, h.1]
+        · simp [PreLock]
+        · intro c hc; simp at hc
+      · cases hacc
     | read n =>
       simp at hstep; subst hstep
       simp only [accept] at hacc
@@ -516,7 +551,15 @@ theorem accept_not_idle (entry : Bytes) (s s' : St) (e : Ev) (h : accept entry s
     · split at h
       · cases h; simp [Idle]
       · cases h
-  | flock ok len =>
+  | flock ok =>
+    simp only [accept] at h; split at h
+    · cases h; simp [Idle]
+    · cases h
+  | seekEnd len =>
+    simp only [accept] at h; split at h
+    · cases h; simp [Idle]
+    · cases h
+  | seekCur len =>
     simp only [accept] at h; split at h
     · cases h; simp [Idle]
     · cases h
@@ -565,7 +608,7 @@ theorem accept_not_idle (entry : Bytes) (s s' : St) (e : Ev) (h : accept entry s
 theorem sysStep_shape (entry : Nat → Bytes) (y y' : Sys) (i : Nat) (e : Ev) (h : sysStep entry y i e = some y') :
     ∃ s', accept (entry i) (y.st i) e = some s' ∧ y'.st = upd y.st i s' ∧
       y'.holder = (match e with
-        | .flock true _ => some i
+        | .flock true => some i
         | .close => release y.holder i
         | .exit _ => release y.holder i
         | _ => y.holder) := by
@@ -576,10 +619,11 @@ theorem sysStep_shape (entry : Nat → Bytes) (y y' : Sys) (i : Nat) (e : Ev) (h
     refine ⟨s', rfl, ?_⟩
     simp only [hacc] at h
     cases e with
-    | flock ok len =>
+    | flock ok =>
       cases ok with
       | true => simp at h; obtain ⟨_, rfl⟩ := h; exact ⟨rfl, rfl⟩
-      | false => simp at h; obtain ⟨_, rfl⟩ := h; exact ⟨rfl, rfl⟩
+      | false => simp at h; subst h; exact ⟨rfl, rfl⟩
+    | seekEnd len => simp at h; obtain ⟨_, rfl⟩ := h; exact ⟨rfl, rfl⟩
     | ftrunc len ok => cases ok <;> (simp at h; subst h; exact ⟨rfl, rfl⟩)
     | fsync ok => cases ok <;> (simp at h; subst h; exact ⟨rfl, rfl⟩)
     | _ => simp at h; subst h; exact ⟨rfl, rfl⟩
@@ -601,7 +645,7 @@ theorem hinv_step (entry : Nat → Bytes) (y y' : Sys) (i : Nat) (e : Ev) (hinv 
   · rw [upd_other _ _ _ _ hki]
     apply hinv k
     cases e with
-    | flock ok len =>
+    | flock ok =>
       cases ok with
       | true => simp only at hho; rw [hho] at hk; cases hk; exact absurd rfl hki
       | false => simp only at hho; rw [← hho]; exact hk
